@@ -304,29 +304,76 @@ def exactness(cx, L):
     f = core[0]
     size = f.params[1][0]
     rets = list(f.body.find('ReturnStmt'))
-    ok = False
     detail = rets[0].text if rets else ''
+    ok, why = False, 'return expression is not a conjunction of the decode result and an all-consumed test'
+    vars_ = {d.name: d for d in f.body.find('VarDecl')}
+
+    def init(name):
+        d = vars_.get(name)
+        return nows(d.kids[-1].text) if d is not None and d.kids else None
+
+    # the decode call and the roles of its arguments
+    calls = [c for c in f.body.find('CallExpr') if 'message_impl<T>::templatedecode<E>' in nows(c.kids[0].text)]
+    if len(calls) != 1 or len(calls[0].kids) != 4:
+        raise AnalysisError('message::decode<E>: call of message_impl<T>::decode<E>(x, pos, end) not recognised')
+    cursor = calls[0].kids[2].strip()
+    if cursor.kind != 'DeclRefExpr' or cursor.ref not in vars_:
+        raise AnalysisError('message::decode<E>: the cursor passed to message_impl is not a local variable')
+    cur = cursor.ref
+    start = init(cur)                                   # static_cast<const uint8_t*>(data)
+    end_txt = nows(calls[0].kids[3].text)               # data_ + size   or a local holding it
+    end_ok = end_txt in (cur + '+' + size, size + '+' + cur) or init(end_txt) in (cur + '+' + size, size + '+' + cur,
+                                                                                   start + '+' + size)
+    L.check(end_ok, 'C07.exactness', f.key() + '|end', f.site(calls[0]),
+            'the end pointer handed to the decoder must be start + size', calls[0].text)
+
+    def consumed(n):     # the number of bytes read: cursor - start (directly or via a local)
+        t = nows(n.text)
+        return t in (cur + '-' + start,) or (n.strip().kind == 'DeclRefExpr' and init(n.strip().ref) in
+                                             (cur + '-' + start, cur + '-static_cast<constuint8_t*>(' + f.params[0][0] + ')'))
+
+    def is_end(n):
+        t = nows(n.text)
+        return t == end_txt or t in (cur + '+' + size,) or (n.strip().kind == 'DeclRefExpr' and init(n.strip().ref) in
+                                                             (cur + '+' + size, start + '+' + size))
+
+    def all_consumed(n):
+        """'exact' | 'lower-bound' | None for a test that everything was consumed."""
+        n = n.strip()
+        if n.kind == 'UnaryOperator' and n.opcode == '!':
+            b = n.kids[0].bin
+            if b and b[0] == '<' and ((consumed(b[1]) and nows(b[2].text) == size) or (is_ref(b[1], cur) and is_end(b[2]))):
+                return 'lower-bound'
+            return None
+        b = n.bin
+        if not b:
+            return None
+        op, l, r = b
+        pairs = [(l, r), (r, l)] if op == '==' else [(l, r)]
+        for x, y in pairs:
+            if (consumed(x) and nows(y.text) == size) or (is_ref(x, cur) and is_end(y)):
+                return 'exact' if op == '==' else ('lower-bound' if op == '>=' else None)
+        return None
+
     if len(rets) == 1 and rets[0].kids:
         e = rets[0].kids[0].strip()
         if e.kind == 'BinaryOperator' and e.opcode == '&&':
             sides = [e.kids[0].strip(), e.kids[1].strip()]
-            vars_ = {d.name: d for d in f.body.find('VarDecl')}
-            succ = [s for s in sides if s.kind == 'DeclRefExpr' and s.ref in vars_
-                    and 'message_impl<T>::templatedecode<E>' in nows(vars_[s.ref].kids[-1].text)]
-            eq = [s for s in sides if s.kind == 'BinaryOperator' and s.opcode == '==']
-            if succ and eq:
-                a, b = eq[0].kids[0].strip(), eq[0].kids[1].strip()
-                names = {a.ref if a.kind == 'DeclRefExpr' else None, b.ref if b.kind == 'DeclRefExpr' else None}
-                if size in names:
-                    other = (names - {size}).pop()
-                    if other in vars_:
-                        init = nows(vars_[other].kids[-1].text)
-                        # bytes_read = data_ - <start of input>
-                        cur = [d.name for d in f.body.find('VarDecl') if 'constuint8_t*' in nows(d.type or '')]
-                        ok = any(init.startswith(c + '-') for c in cur)
+            succ = [x for x in sides if (x.kind == 'DeclRefExpr' and x.ref in vars_ and
+                                        'message_impl<T>::templatedecode<E>' in (init(x.ref) or '')) or x is calls[0]]
+            tests = [all_consumed(x) for x in sides]
+            if succ and 'exact' in tests:
+                ok = True
+            elif succ and 'lower-bound' in tests:
+                # cursor >= end is "all consumed" only under the invariant cursor <= end, which is what the
+                # guard-dominance obligations of this run establish
+                inv = not any(o.status == 'bad' and o.rule.startswith('F6cxx.cursor-write') for o in L.obligations)
+                ok = inv
+                why = 'the test is only a lower bound (cursor >= end) and the invariant cursor <= end is not ' \
+                      'established: a cursor write is unguarded'
     L.check(ok, 'C07.exactness', f.key(), f.site(),
-            'message::decode<E>(data, size) must return `success && bytes_read == size` with success the result of '
-            'message_impl<T>::decode<E> and bytes_read the cursor distance', detail)
+            'message::decode<E>(data, size) must return true only if the decoder succeeded and exactly `size` bytes '
+            'were consumed (%s)' % why, detail)
     # the three other overloads only delegate to it; nobody else calls message_impl<T>::decode in message.hpp
     for g in msg:
         if g is f:
